@@ -80,7 +80,13 @@ def round_(x, nd=None):
     if isinstance(x, SInt):
         return x
     if isinstance(x, SReal):
-        raise Inconclusive("round() of a symbolic real")
+        if nd is not None:
+            raise Inconclusive("round(x, ndigits) of a symbolic real")
+        # round half to even, exact reals (NaN: Python raises ValueError - not modelled, callers here never pass NaN)
+        f = z3.ToInt(x.v)                      # floor
+        frac = x.v - z3.ToReal(f)
+        half = z3.RealVal("1/2")
+        return SInt(z3.If(frac < half, f, z3.If(frac > half, f + 1, z3.If(f % 2 == 0, f, f + 1))))
     return builtins.round(x, nd) if nd is not None else builtins.round(x)
 
 
